@@ -56,22 +56,27 @@ impl Fl {
     pub fn unicode(&self) -> bool {
         self.mode != Mode::Legacy
     }
-    /// Flags as a user builds them: from the JavaScript flag string (`Flags::from(&str)`), never by filling the struct.
-    /// Letters regress documents as ignored (g, y, d) are mixed in deterministically (by `salt`), since
-    /// "other flags are not implemented and are ignored" is part of the documented behaviour.
+    /// Flags as a user builds them, by every public route (chosen deterministically by `salt`): from the JavaScript
+    /// flag string (`Flags::from(&str)`), from a code point iterator (`Flags::new`), or by filling the struct
+    /// (for v: with and without also setting `unicode`). Letters regress documents as ignored (g, y, d) are mixed
+    /// into the string forms, since "other flags are not implemented and are ignored" is documented behaviour.
     pub fn regress_salted(&self, no_opt: bool, salt: usize) -> regress::Flags {
         let t = self.text();
-        let s = match salt % 4 {
-            0 => t,
-            1 => format!("g{}", t),
-            2 => format!("{}y", t),
-            _ => {
-                let mut chars: Vec<char> = t.chars().collect();
-                chars.insert(chars.len() / 2, 'd');
-                chars.into_iter().collect()
-            }
+        let with_d = || {
+            let mut chars: Vec<char> = t.chars().collect();
+            chars.insert(chars.len() / 2, 'd');
+            chars.into_iter().collect::<String>()
         };
-        let mut f = regress::Flags::from(s.as_str());
+        let mut f = match salt % 8 {
+            0 => regress::Flags::from(t.as_str()),
+            1 => regress::Flags::from(format!("g{}", t).as_str()),
+            2 => regress::Flags::from(format!("{}y", t).as_str()),
+            3 => regress::Flags::from(with_d().as_str()),
+            4 => regress::Flags::new(t.chars().map(u32::from)),
+            5 => regress::Flags::new(with_d().chars().rev().map(u32::from)),
+            6 => regress::Flags { icase: self.i, multiline: self.m, dot_all: self.s, unicode: self.mode == Mode::U, unicode_sets: self.mode == Mode::V, ..Default::default() },
+            _ => regress::Flags { icase: self.i, multiline: self.m, dot_all: self.s, unicode: self.mode != Mode::Legacy, unicode_sets: self.mode == Mode::V, ..Default::default() },
+        };
         f.no_opt = no_opt;
         f
     }
@@ -747,6 +752,24 @@ impl GenCfg {
 }
 
 pub fn gen_alphabet(src: &mut Src) -> Vec<u32> {
+    if src.chance(1, 10) {
+        // the equivalence classes (legacy and Unicode) of two arbitrary cased code points, plus a bystander
+        let cased = &crate::props::c12::cased().0;
+        let mut a: Vec<u32> = vec![];
+        for _ in 0..2 {
+            let c = *src.pick(cased);
+            a.push(c);
+            for uni in [false, true] {
+                for p in crate::props::c12::partners(c, uni) {
+                    if !a.contains(&p) {
+                        a.push(p);
+                    }
+                }
+            }
+        }
+        a.push(0x7A);
+        return a;
+    }
     let mut a = src.pick(ALPHABETS).to_vec();
     if src.chance(1, 4) {
         // one foreign character
@@ -781,6 +804,21 @@ fn raw_escape(src: &mut Src, cfg: &GenCfg, c: u32) -> Option<Vec<u32>> {
     Some(out)
 }
 
+/// sometimes stretch a class range to a boundary of the code space or of a UTF-8 / UTF-16 length class
+fn range_to_boundary(src: &mut Src, lo: u32, hi: u32) -> (u32, u32) {
+    match src.weighted(&[12, 1, 1]) {
+        0 => (lo, hi),
+        1 => {
+            let c: Vec<u32> = [0x7F, 0x7FF, 0xD7FF, 0xFFFF, 0x10FFFF].iter().copied().filter(|b| *b >= hi).collect();
+            (lo, *src.pick(&c))
+        }
+        _ => {
+            let c: Vec<u32> = [0, 0x80, 0x800, 0xE000, 0x10000].iter().copied().filter(|b| *b <= lo).collect();
+            (*src.pick(&c), hi)
+        }
+    }
+}
+
 pub fn gen_class_item(src: &mut Src, cfg: &GenCfg) -> ClassItem {
     match src.weighted(&[6, 3, 2, if cfg.props && cfg.fl.unicode() { 1 } else { 0 }]) {
         0 => ClassItem::Ch(gen_char(src, cfg)),
@@ -790,6 +828,7 @@ pub fn gen_class_item(src: &mut Src, cfg: &GenCfg) -> ClassItem {
             let (lo, hi) = if a <= b { (a, b) } else { (b, a) };
             // widen sometimes
             let hi = if src.chance(1, 3) { (hi + src.below(40)).min(0x10FFFF) } else { hi };
+            let (lo, hi) = range_to_boundary(src, lo, hi);
             ClassItem::Range(lo, hi)
         }
         2 => ClassItem::Esc(*src.pick(b"dwsDWS")),
@@ -811,6 +850,7 @@ pub fn gen_cs_op(src: &mut Src, cfg: &GenCfg, depth: u32) -> CsOp {
             let a = gen_char(src, cfg);
             let b = gen_char(src, cfg);
             let (lo, hi) = if a <= b { (a, b) } else { (b, a) };
+            let (lo, hi) = range_to_boundary(src, lo, hi);
             CsOp::Range(lo, hi)
         }
         2 => CsOp::Esc(*src.pick(b"dwsDWS")),
@@ -911,6 +951,7 @@ pub fn gen_node(src: &mut Src, cfg: &GenCfg, depth: u32) -> Node {
         w(cfg.raw_escapes, 1),                            // 15 raw escape
         w(cfg.classset && cfg.fl.mode == Mode::V, 3),     // 16 class set
         w(cfg.named && cfg.backref, 1),                   // 17 named ref
+        w(!deep && depth <= 1, 1),                        // 18 long literal run (crosses the emitter's 16-byte chunks)
     ];
     match src.weighted(&weights) {
         0 => Node::Lit(gen_char(src, cfg)),
@@ -964,8 +1005,22 @@ pub fn gen_node(src: &mut Src, cfg: &GenCfg, depth: u32) -> Node {
             }
         }
         16 => Node::ClassSet(gen_cs(src, cfg, 0)),
-        _ => Node::NamedRef(src.below(4)),
+        17 => Node::NamedRef(src.below(4)),
+        _ => gen_literal_run(src, cfg),
     }
+}
+
+/// a run of literals whose UTF-8 length is around a multiple of 16 bytes
+pub fn gen_literal_run(src: &mut Src, cfg: &GenCfg) -> Node {
+    let target = *src.pick(&[15u32, 16, 17, 18, 31, 32, 33, 34, 48, 49]);
+    let mut v = vec![];
+    let mut bytes = 0;
+    while bytes < target {
+        let c = gen_char(src, cfg);
+        bytes += char::from_u32(c).map(|c| c.len_utf8() as u32).unwrap_or(3);
+        v.push(Node::Lit(c));
+    }
+    Node::Cat(v)
 }
 
 /// Make group names unique (duplicates are only legal across alternatives; the generic
